@@ -19,6 +19,8 @@ MAX_DEPTH = 4
 
 
 class AMap:
+    aparent = None            # the map this object was last stored in (None: stored nowhere / detached)
+
     def __init__(self, label=None, implicit=False):
         self.label = label
         self.subs = {}
@@ -33,6 +35,9 @@ class AMap:
 
 
 class AHandle:
+    aparent = None
+    on_load = None            # the loader's own code (a script that may use the tree), run while loading
+
     def __init__(self, label, fails=()):
         self.label = label
         self.loads = 0            # loads that returned
@@ -48,6 +53,10 @@ class AHandle:
             self.tries += 1
             if self.tries in self.fails:
                 return 'raised LoadError'
+            if self.on_load is not None:
+                self.on_load()
+            # whatever the loader did meanwhile (clearing this very handle included), what it returns is
+            # what the handle now holds
             self.loads += 1
             self.cached = True
         return f'val {self.label} {self.loads}'
@@ -92,6 +101,20 @@ class Spec:
         self.detached = {}        # id(obj) -> (obj, 'm0 cleared') : must show parent None / key None
         self.last_mut = ''
         self.violations = []
+        # scripted user code (property setters of user subclasses, loaders that use the tree)
+        self.reactions, self.fired = {}, {}
+        for ln in lines:
+            t = ln.split()
+            if t[:1] == ['react']:
+                ops, cur = [], []
+                for tok in t[5:] + [';']:
+                    if tok == ';':
+                        if cur:
+                            ops.append(cur)
+                        cur = []
+                    else:
+                        cur.append(tok)
+                self.reactions[(t[1], t[2], int(t[3]))] = ops
         self.alphabet = sorted({c for ln in lines for t in ln.split() if t.startswith(':')
                                 for c in comps(t)})
 
@@ -180,6 +203,50 @@ class Spec:
             return ('map', cur.subs[ks[-1]])
         return None
 
+    # ----- scripted user code
+    def fire(self, hook, label):
+        if label is None:
+            return
+        k = self.fired.get((hook, label), 0)
+        self.fired[(hook, label)] = k + 1
+        for t in self.reactions.get((hook, label, k), ()):
+            self.silent(t)
+
+    def silent(self, t):
+        """one operation of a script: its result is dropped"""
+        kind = t[0]
+        if kind == 'set':
+            v = self.hs.get(t[3]) or self.menv.get(t[3])
+            if t[1] in self.menv and v is not None:
+                self.assign(self.menv[t[1]], comps(t[2]), v)
+        elif kind == 'clear' and t[1] in self.menv:
+            self.clear(self.menv[t[1]], t[1])
+        elif kind in ('getitem', 'chain') and t[1] in self.menv:
+            ks = comps(t[2])
+            if kind == 'getitem':
+                r = self.resolve(self.menv[t[1]], ks)
+                if r is not None and r[0] == 'handle':
+                    r[1].access()
+            else:
+                cur = self.menv[t[1]]
+                for k in ks:
+                    h = cur.visible(k)
+                    if h is not None:
+                        h.access()
+                        break
+                    if k not in cur.subs:
+                        break
+                    cur = cur.subs[k]
+        elif kind == 'call':
+            self.hs[t[1]].access()
+        elif kind == 'hclear':
+            self.hs[t[1]].cached = False
+
+    def give_up(self):
+        """user code changed a dictionary while the library was iterating over it: what must happen then is not
+        said by the property; the rest of this history is not judged"""
+        raise Stop()
+
     def assign(self, m, ks, v):
         cur = m
         for k in ks[:-1]:
@@ -187,6 +254,7 @@ class Spec:
                 for s in cur.scopes:        # the name now denotes a map: no handle of that name
                     s.pop(k, None)
                 cur.subs[k] = AMap(implicit=True)
+                cur.subs[k].aparent = cur
             cur = cur.subs[k]
         last = ks[-1]
         if isinstance(v, AMap):
@@ -197,16 +265,50 @@ class Spec:
             cur.subs.pop(last, None)
             cur.scopes[0][last] = v
         v.inserted += 1
+        v.aparent = cur
+        self.detached.pop(id(v), None)
+        # the object is told where it is now: a user subclass may run its own code at that moment
+        self.fire('parent', v.label)
+        self.fire('key', v.label)
+        # user code may have cleared the map in between: the assignment then went on writing the back-link of an
+        # object that is stored nowhere, which no clause constrains
         self.detached.pop(id(v), None)
 
+    def detach(self, m, child, label):
+        self.detached[id(child)] = (child, label)
+        if child.aparent is m:
+            child.aparent = None
+            self.fire('parent', child.label)
+            self.fire('key', child.label)
+
     def clear(self, m, label):
-        for s in m.scopes:
-            for h in s.values():
-                self.detached[id(h)] = (h, label)
-        for c in m.subs.values():
-            self.detached[id(c)] = (c, label)
-        m.subs = {}
-        m.scopes = [{}]
+        """every direct child - those that user code adds while the map is being cleared included - is detached
+        (and told so), then the map is empty"""
+        li = 0
+        while li < len(m.scopes):
+            scope, n0, idx = m.scopes[li], len(m.scopes[li]), 0
+            while True:
+                if len(scope) != n0:
+                    self.give_up()
+                vals = list(scope.values())
+                if idx >= len(vals):
+                    break
+                self.detach(m, vals[idx], label)
+                idx += 1
+            li += 1
+        n0, idx = len(m.subs), 0
+        while True:
+            if len(m.subs) != n0:
+                self.give_up()
+            vals = list(m.subs.values())
+            if idx >= len(vals):
+                break
+            self.detach(m, vals[idx], label)
+            idx += 1
+        # emptied in place: a clear() that is still running one level up must notice
+        m.subs.clear()
+        del m.scopes[1:]
+        m.scopes[0].clear()
 
     def cyclic(self, m, seen=()):
         if any(m is x for x in seen):
@@ -315,8 +417,12 @@ class Spec:
             return
         for o in block:
             t = o.split()
-            obj = self.hs.get(t[1]) or self.menv.get(t[1])
+            obj = self.hs.get(t[1]) or self.menv.get(t[1]) or self.rev.get(t[1])
             par, key = t[2].split('=', 1)[1], key_field(t[3])
+            # an anonymous map met through the back-link of something stored in it gets its name here
+            if obj is not None and obj.inserted <= 1 and isinstance(obj.aparent, AMap) \
+                    and obj.aparent.label is None and par.startswith('a'):
+                self.same_map(obj.aparent, par)
             if obj is not None and id(obj) in self.detached and obj.inserted <= 1:
                 if par != 'None' or key is not None:
                     self.fail('C11:clear-not-detached', f'{t[1]} was a direct child of {self.detached[id(obj)][1]}: '
@@ -375,6 +481,9 @@ class Spec:
         if t[0] == 'newhandle':
             fails = [int(x) for tok in t[3:] if tok.startswith('fail=') for x in tok[5:].split(',') if x]
             self.hs[t[1]] = AHandle(t[1], fails)
+            self.hs[t[1]].on_load = lambda label=t[1]: self.fire('load', label)
+            return
+        if t[0] == 'react':
             return
         t = t[1:]
         kind = t[0]
@@ -417,8 +526,8 @@ class Spec:
             self.menv[t[1]].scopes.insert(0, {})
             self.last_mut = ' '.join(t)
         elif kind == 'clear':
+            self.clear(self.menv[t[1]], t[1])      # (gives up if user code changes a dictionary under iteration)
             self.expect('res ok', 'C11:clear-raised', ln)
-            self.clear(self.menv[t[1]], t[1])
             self.last_mut = ' '.join(t)
         elif kind == 'dump':
             self.check_dump(self.menv[t[1]], t[1])
